@@ -310,7 +310,7 @@ pub fn def(tier: Tier) -> CheckDef {
             "the typing rules are those of R-core (see C05); elaborated terms that still contain unresolved holes are outside the explicit checker's domain and are counted, not judged",
             "fuel exhaustion of the reference checker and aborts of gram's checker on divergent perturbed programs are inconclusive",
         ],
-        idle_limit_s: 120,
+        idle_limit_s: 45,
         needs_cli: false,
         fuzz: None,
         parts: vec![
